@@ -1765,17 +1765,20 @@ namespace
         sink.count(std::string("c03c_status:") + statusName(r.status));
         // (b) the status describes the call that returned it
         const bool solStatus = r.status == ob::PlannerStatus::EXACT_SOLUTION || r.status == ob::PlannerStatus::APPROXIMATE_SOLUTION;
+        // (after setProblemDefinition(new) without clear() a status that speaks about the previous query's solution is one more
+        // symptom of the planner not having forgotten it)
+        auto staleOr = [&](const std::string &clause) { return cx.dirty ? std::string("stale-query-after-setProblemDefinition") : clause; };
         if (solStatus && r.added.empty())
         {
             if (pdef->getSolutionCount() == 0)
-                cx.viol("status-without-path", detail("solution status but the problem definition holds no solution path"));
+                cx.viol(staleOr("status-without-path"), detail("solution status but the problem definition holds no solution path"));
             else
                 sink.count("c03c_solution_status_without_new_path");
         }
         if (!solStatus && !r.added.empty())
             cx.viol("nonsolution-added-path", detail("non-solution status but a path was added").u("added", r.added.size()));
-        if (r.status == ob::PlannerStatus::EXACT_SOLUTION && !pdef->hasExactSolution())
-            cx.viol("exact-status-no-exact-solution", detail("status EXACT_SOLUTION but the problem definition holds no exact solution"));
+        if (r.status == ob::PlannerStatus::EXACT_SOLUTION && !pdef->hasExactSolution() && !(solStatus && r.added.empty() && pdef->getSolutionCount() == 0))
+            cx.viol(staleOr("exact-status-no-exact-solution"), detail("status EXACT_SOLUTION but the problem definition holds no exact solution"));
         // (c) every added path: the complete replay oracle of C02, for the query the planner was asked
         OracleOut out{sink, "C03:solution-", cx.subj, cx.subj, "c03c_",
                       [&]() {
